@@ -29,12 +29,16 @@ SEARCH_RULE = ('DKW band eps_n = sqrt(ln(2/delta)/(2n)), delta = 1e-9.  Required
                'estimation-error allowance) and sup|F_fit - ECDF| <= 3*eps_n (triangle inequality); GaussianKDE (unweighted, '
                'no sample_size): sup|F_kde - F_true| <= eps_n + b and sup|F_kde - ECDF| <= 2*eps_n + b with the bandwidth '
                'allowance b = h*sqrt(2/pi)*sup f_true + 1e-5.  Every dataset for Gaussian/Uniform/TruncatedGaussian/KDE; '
-               'for Beta/Gamma/StudentT/LogLaplace at least 80 % of the datasets of each (family, n) cell of N = 40 datasets: a cell is '
+               'for Beta/Gamma/StudentT/LogLaplace at least 80 % of the datasets of each (family, n) cell of N = 40 datasets, where a '
+               'dataset passes iff sup|F_fit - F_true| <= eps\'_n and sup|F_fit - ECDF| <= 2*eps\'_n with the per-dataset band '
+               'eps\'_n = sqrt(ln(2/1e-3)/(2n)) (the 1e-9 false-alarm level is enforced at the cell level): a cell is '
                'a violation iff the exact binomial tail P(Bin(N, 0.8) <= passes) <= 1e-9 (LogLaplace is split: loc = 0 under that '
-               'rule; shifted data under the plain passes/N < 0.8 rule with its own class `…:shifted-data`); the generating '
+               'rule; shifted data under the plain passes/N < 0.8 rule with its own class `…:shifted-data`; Beta has a second '
+               'cell `beta@unit` whose generating support is a proper sub-interval of (0,1)); the generating '
                'parameters of a cell are a FIXED design (independent of VERIF_SEED), the samples depend on the seed.  '
                'Statistical part only in the thorough tier / when an obligation is broken; the quick tier runs the '
-               'deterministic oracles (exact estimators, param maps, KDE density = kernel estimate, supports)')
+               'deterministic oracles (exact estimators, param maps, KDE density = kernel estimate, supports, TruncatedGaussian with '
+               'user bounds equal to 0, fitted Beta support not wider than 3x the data range for data inside (0,1))')
 PARTIAL = ['consistency_partial: the DKW-band closeness of the fitted CDF to the generating/empirical CDF is a statistical '
            'statement about the sample and scipy\'s optimisers (fmin for the MLE families, SLSQP for TruncatedGaussian); no Lean '
            'theorem, checked by the search experiment only',
@@ -53,6 +57,7 @@ ASSUMPTIONS = ['scipy.stats.<dist>.fit returns (shapes in <dist>.shapes order, l
 EPS32 = float(np.finfo(np.float32).eps)
 U = 2.0 ** -52
 DELTA = 1e-9
+DELTA_DATASET = 1e-3
 MLE = {  # driver family name -> (class name, scipy.stats name, shape names)
     'beta': ('BetaUnivariate', 'beta', ['a', 'b']),
     'gamma': ('GammaUnivariate', 'gamma', ['a']),
@@ -325,9 +330,14 @@ def tie_truncated(ctx, lean):
     for i in range(12 * ctx.scale):
         n = rng.choice([5, 20, 60, 150])
         X, lo, hi = trunc_data(rng, nprng, n)
-        mode = ['both', 'min', 'max', 'none'][i % 4]
-        umin = lo if mode in ('both', 'min') else None
-        umax = hi if mode in ('both', 'max') else None
+        mode = ['both', 'min', 'max', 'none', 'zero-min', 'zero-max'][i % 6]
+        if mode.startswith('zero'):          # a user bound that is exactly 0 (falsy in Python)
+            X = X - (lo if mode == 'zero-min' else hi)
+            lo, hi = (0.0, hi - lo) if mode == 'zero-min' else (lo - hi, 0.0)
+            X = X[(X > lo) & (X < hi)]
+            n = len(X)
+        umin = lo if mode in ('both', 'min', 'zero-min', 'zero-max') else None
+        umax = hi if mode in ('both', 'max', 'zero-min', 'zero-max') else None
         m = tg.TruncatedGaussian(minimum=umin, maximum=umax)
         with SlsqpRecorder(tg) as rec:
             m.fit(X)
@@ -528,6 +538,10 @@ def band(n):
     return math.sqrt(math.log(2.0 / DELTA) / (2.0 * n))
 
 
+def band_d(n):
+    return math.sqrt(math.log(2.0 / DELTA_DATASET) / (2.0 * n))
+
+
 def sup_dists(cdf_fit, dist, X, max_pts=None, rs=None):
     """(sup|F_fit - F_true|, sup|F_fit - ECDF|) over the sample points (+ a quantile grid for the first)."""
     xs = np.sort(np.asarray(X, dtype=float))
@@ -561,6 +575,11 @@ def fixed_design(family, k):
             p['shapes'] = [lognu(r, 2, 30)]
         elif family == 'logLaplace':
             p['shapes'] = [lognu(r, 1, 8)]
+        elif family == 'beta@unit':            # support a proper sub-interval of (0, 1)
+            loc = r.uniform(0.05, 0.6)
+            p.update(loc=loc, scale=r.uniform(0.05, min(0.35, 0.95 - loc)), shapes=[lognu(r, 0.5, 10), lognu(r, 0.5, 10)])
+        elif family == 'beta@unit-moderate':   # same, bell-shaped members only (quick support-width oracle)
+            p.update(loc=r.uniform(0.05, 0.6), scale=r.uniform(0.05, 0.2), shapes=[lognu(r, 1.5, 4), lognu(r, 1.5, 4)])
         elif family == 'logLaplace@origin':
             p.update(loc=0.0, scale=lognu(r, 0.1, 10), shapes=[lognu(r, 1, 8)])
         elif family == 'gaussian':
@@ -575,9 +594,9 @@ def fixed_design(family, k):
     return out
 
 
-SCIPY_OF = {'beta': 'beta', 'gamma': 'gamma', 'studentT': 't', 'logLaplace': 'loglaplace', 'logLaplace@origin': 'loglaplace',
+SCIPY_OF = {'beta': 'beta', 'beta@unit': 'beta', 'beta@unit-moderate': 'beta', 'gamma': 'gamma', 'studentT': 't', 'logLaplace': 'loglaplace', 'logLaplace@origin': 'loglaplace',
             'gaussian': 'norm', 'uniform': 'uniform', 'truncated': 'truncnorm'}
-CLASS_OF = {'beta': 'BetaUnivariate', 'gamma': 'GammaUnivariate', 'studentT': 'StudentTUnivariate', 'logLaplace': 'LogLaplace',
+CLASS_OF = {'beta': 'BetaUnivariate', 'beta@unit': 'BetaUnivariate', 'beta@unit-moderate': 'BetaUnivariate', 'gamma': 'GammaUnivariate', 'studentT': 'StudentTUnivariate', 'logLaplace': 'LogLaplace',
             'logLaplace@origin': 'LogLaplace', 'gaussian': 'GaussianUnivariate', 'uniform': 'UniformUnivariate',
             'truncated': 'TruncatedGaussian'}
 
@@ -609,7 +628,7 @@ def fit_one(family, p, X):
 def support_check(family, p, m, kw, X):
     """bounded families: no mass outside the fitted support -> None or (what, observed)"""
     with np.errstate(all='ignore'):
-        if family in ('beta', 'uniform'):
+        if family in ('beta', 'beta@unit', 'beta@unit-moderate', 'uniform'):
             loc, scale = float(m._params['loc']), float(m._params['scale'])
             d = 1e-9 * max(abs(scale), abs(loc) * 1e-3, 1e-300)
             lo, hi = m.cumulative_distribution(np.array([loc - d, loc + scale + d]))
@@ -634,8 +653,9 @@ def support_check(family, p, m, kw, X):
     return None
 
 
-def dkw_eval(family, p, X):
-    """fit the real class and evaluate the property on one dataset -> dict"""
+def dkw_eval(family, p, X, rule='every'):
+    """fit the real class and evaluate the property on one dataset -> dict.  rule 'every': the dataset itself must pass at
+    false-alarm level DELTA (2x / 3x band); rule 'cell': per-dataset band at DELTA_DATASET (1x / 2x), the cell decides."""
     n = len(X)
     try:
         m, kw = fit_one(family, p, X)
@@ -644,8 +664,9 @@ def dkw_eval(family, p, X):
         params = vc.jsonable(m._params)
     except Exception as e:  # noqa
         return {'ok': False, 'exc': f'{type(e).__name__}: {e}'[:160], 'support': None, 'params': None, 'ctor': {}}
-    e = band(n)
-    return {'ok': d_true <= 2 * e and d_emp <= 3 * e, 'd_true': d_true, 'd_emp': d_emp, 'band': e, 'support': sup,
+    e = band(n) if rule == 'every' else band_d(n)
+    ok = (d_true <= 2 * e and d_emp <= 3 * e) if rule == 'every' else (d_true <= e and d_emp <= 2 * e)
+    return {'ok': ok, 'd_true': d_true, 'd_emp': d_emp, 'band': e, 'support': sup,
             'params': params, 'ctor': kw, 'model': m}
 
 
@@ -839,6 +860,66 @@ def kde_dkw(ctx, seed, deep, ns):
     return n_all, n_fail
 
 
+def trunc_zero_bounds_oracle(ctx, seed, deep):
+    """TruncatedGaussian honours user-supplied bounds - also a bound that is exactly 0 (falsy in Python): data strictly
+    inside the bounds; cdf(minimum) = 0, cdf(maximum) = 1, self.min/max unchanged, loc + a*scale / loc + b*scale = bounds."""
+    import copulas.univariate.truncated_gaussian as tg
+    r = random.Random('C04-design/trunc-zero')
+    checked = 0
+    for j in range(12 if deep else 6):
+        scale = lognu(r, 0.5, 50)
+        a = r.uniform(-2.0, 0.5)
+        b = a + r.uniform(1.0, 3.5)
+        which = ['min', 'max', 'min-int', 'max-only', 'min-only', 'max-int'][j % 6]
+        loc = -a * scale if which.startswith('min') else -b * scale        # puts the lower / upper end of the support at 0
+        rs = vc.np_rng(seed, 'C04', 'trunc-zero', j)
+        X = np.asarray(stats.truncnorm.rvs(a, b, loc=loc, scale=scale, size=150, random_state=rs), dtype=float)
+        lo, hi = loc + a * scale, loc + b * scale
+        X = X[(X > lo) & (X < hi)]
+        zero = 0 if which.endswith('int') else 0.0
+        if which.startswith('min'):
+            kw = {'minimum': zero} if which == 'min-only' else {'minimum': zero, 'maximum': hi}
+        else:
+            kw = {'maximum': zero} if which == 'max-only' else {'minimum': lo, 'maximum': zero}
+        m = tg.TruncatedGaussian(**kw)
+        m.fit(X)
+        checked += 1
+        ctx.count(f'support.truncated.zero-bound.{which}')
+        bad = support_check('truncated', None, m, {k: float(v) for k, v in kw.items()}, X)
+        if bad:
+            ctx.fail_input('TruncatedGaussian.fit', {'ctor': kw, 'X': X.tolist()}, bad[1],
+                           'user-supplied bounds (including a bound equal to 0) are honoured: self.min/max unchanged, '
+                           'cdf(minimum) = 0, cdf(maximum) = 1, loc + a*scale = minimum, loc + b*scale = maximum',
+                           f'TruncatedGaussian.fit:{bad[0]}')
+    return checked
+
+
+def beta_unit_width_oracle(ctx, seed, deep):
+    """data of a bell-shaped Beta whose support is a proper sub-interval of (0,1): the fitted support [loc, loc+scale] must
+    not be much wider than the data range (scale <= 3 * range; clean tree: <= 2.1 over 2400 fits)."""
+    checked = 0
+    for idx, p in enumerate(fixed_design('beta@unit-moderate', 10 if deep else 4)):
+        X = draw(seed, 'beta@unit-moderate', idx, 1000, p)
+        res = dkw_eval('beta@unit-moderate', p, X, rule='cell')
+        checked += 1
+        ctx.count('support.beta@unit.width')
+        inp = {'family': 'beta@unit-moderate', 'design_index': idx, 'params': p, 'n': 1000, 'seed': seed}
+        if res.get('exc'):
+            ctx.fail_input('BetaUnivariate.fit', inp, res['exc'], 'fit succeeds', 'BetaUnivariate.fit:raises')
+            continue
+        if res.get('support'):
+            ctx.fail_input('BetaUnivariate.fit', inp, res['support'][1], 'no mass outside the fitted support',
+                           f'BetaUnivariate.fit:{res["support"][0]}')
+        rng_ = float(X.max() - X.min())
+        sc = float(res['params']['scale'])
+        if not sc <= 3 * rng_:
+            ctx.fail_input('BetaUnivariate.fit', inp, {'fitted': res['params'], 'data_range': [float(X.min()), float(X.max())],
+                                                       'd_true': res['d_true']},
+                           'fitted support not wider than 3x the data range (generating support '
+                           f'[{p["loc"]:.3f}, {p["loc"] + p["scale"]:.3f}] inside (0,1))', 'BetaUnivariate.fit:support-much-wider-than-data')
+    return checked
+
+
 def binom_tail(passes, n_cell):
     """P(Bin(N, 0.8) <= passes): the cell is a violation iff this is <= DELTA"""
     return float(stats.binom.cdf(passes, n_cell, 0.8))
@@ -881,6 +962,8 @@ def search(ctx, deep, seed=None):
                 cells.setdefault(f'{family}/n={n}', [0, 0])
                 cells[f'{family}/n={n}'][0] += 1
                 cells[f'{family}/n={n}'][1] += bool(res['ok'])
+    checked += trunc_zero_bounds_oracle(ctx, seed, deep)
+    checked += beta_unit_width_oracle(ctx, seed, deep)
     # --- bounded scipy-MLE family: support of the fitted Beta (deterministic)
     if not deep:
         for idx, p in enumerate(fixed_design('beta', 4)):
@@ -897,12 +980,12 @@ def search(ctx, deep, seed=None):
     ka, kf = kde_dkw(ctx, seed, deep, ns)
     checked += ka
     # --- >= 80 % of the datasets of a cell: scipy generic MLE
-    for family in ('beta', 'gamma', 'studentT', 'logLaplace@origin', 'logLaplace'):
+    for family in ('beta', 'beta@unit', 'gamma', 'studentT', 'logLaplace@origin', 'logLaplace'):
         design = fixed_design(family, 40)
         for n in ns:
             passed, worst = 0, []
             for idx, p in enumerate(design):
-                res = dkw_eval(family, p, draw(seed, family, idx, n, p))
+                res = dkw_eval(family, p, draw(seed, family, idx, n, p), rule='cell')
                 checked += 1
                 passed += bool(res['ok'])
                 cls = CLASS_OF[family]
@@ -919,9 +1002,10 @@ def search(ctx, deep, seed=None):
             # LogLaplace on shifted data: plain 80 % rule under its own (recorded) class; every other cell: the population
             # pass rate is < 80 % with false-alarm probability <= DELTA (exact binomial tail)
             if (passed < 0.8 * len(design)) if shifted else (tail <= DELTA):
-                key = f'{CLASS_OF[family]}.fit:dkw-80%' + (':shifted-data' if shifted else '')
+                key = f'{CLASS_OF[family]}.fit:dkw-80%' + (':shifted-data' if shifted else '') + \
+                    (':data-inside-unit-interval' if family == 'beta@unit' else '')
                 ctx.fail_input(f'{CLASS_OF[family]}.fit', {'family': family, 'n': n, 'seed': seed, 'datasets': len(design)},
-                               {'passed': passed, 'of': len(design), 'binomial_tail': tail, 'band': band(n), 'failing': worst[:6]},
+                               {'passed': passed, 'of': len(design), 'binomial_tail': tail, 'band': band_d(n), 'failing': worst[:6]},
                                'fitted CDF within the DKW band of the generating and empirical CDF for >= 80 % of the datasets of '
                                'the cell', key)
     ctx.support = {'oracle_checks': checked, 'deep': deep, 'delta': DELTA, 'rule': SEARCH_RULE,
